@@ -720,6 +720,9 @@ class _SubtypeDistanceVisitor(TypeVisitor[int | None]):
         """
         if isinstance(self.subtype, Instance):
             if supertype.args and self.subtype.args:
+                if self.graph.get_shortest_path_length(supertype.type, self.subtype.type) is None:
+                    # The classes are unrelated, e.g. list[int] and set[int].
+                    return None
                 distances = list(
                     map(self.graph.subtype_distance, supertype.args, self.subtype.args)
                 )
